@@ -19,7 +19,7 @@ use crate::gen::clocks::{advance, base_instant, moving_script};
 use crate::gen::sem::SemGen;
 use crate::lang::*;
 use crate::prng::Rng;
-use crate::trace::{Event, Line, Op, TextSpec, Trace};
+use crate::trace::{AdminOp, Event, Line, Op, TextSpec, Trace, ADMIN};
 
 pub struct C09;
 
@@ -81,7 +81,10 @@ impl Check for C09 {
         let move_rate = *r.pick(&[0u64, 2, 5]);
         let lang = if r.chance(1, 4) { "tr" } else { "en" };
         let mut events = Vec::new();
-        let session = r.chance(1, 3);
+        let session = r.chance(1, 2);
+        let zone_rate = *r.pick(&[0u64, 0, 1, 3]);
+        let pool = g.name_pool(&mut r, 3);
+        let mut bound: Vec<NameUse> = Vec::new();
         if session { events.push(Event { actor: 0, op: Op::SessionNew { lang: lang.into() }, clock: ClockScript::Frozen { t } }); }
         let mut sweep: Option<(TextSpec, i128, u32)> = None;
         for _ in 0..n {
@@ -95,10 +98,36 @@ impl Check for C09 {
                 }
             }
             t = advance(&mut r, t);
+            if r.below(10) < zone_rate {
+                // the default zone labels dates; calendar arithmetic must not depend on it
+                let tz = if r.chance(1, 3) { g.zone(&mut r).0 } else { r.pick(&g.zones).0.clone() };
+                events.push(Event { actor: ADMIN, op: Op::Admin(AdminOp::SetTimezone { tz }), clock: ClockScript::Frozen { t } });
+                continue;
+            }
             let n_lines = 1 + r.usize(3);
-            let lines: Vec<Line> = (0..n_lines).map(|_| Line::Sem(gen_line(&mut r, &g, lang))).collect();
+            let use_session = session && r.chance(1, 2);
+            let mut lines: Vec<Line> = Vec::new();
+            for _ in 0..n_lines {
+                if use_session && r.chance(1, 4) {
+                    // bind a date; it outlives clock advances and default-zone changes
+                    let name = r.pick(&pool).clone();
+                    if !bound.iter().any(|b| b.key() == name.key()) { bound.push(name.clone()); }
+                    lines.push(Line::Sem(Stmt::Assign { name: g.name_use(&mut r, &name), e: date_expr(&mut r, &g, lang, true) }));
+                } else if use_session && !bound.is_empty() && r.chance(1, 3) {
+                    let name = r.pick(&bound).clone();
+                    let v = Box::new(Expr::Var(g.name_use(&mut r, &name)));
+                    let e = match r.below(3) {
+                        0 if lang == "en" => Expr::Between { a: v, b: Box::new(date_expr(&mut r, &g, lang, true)) },
+                        1 if lang == "en" => Expr::Between { a: Box::new(date_expr(&mut r, &g, lang, true)), b: v },
+                        _ => Expr::Bin { l: v, op: *r.pick(&['+', '-']), r: Box::new(Expr::Lit(g.dur_days(&mut r, lang, 29))), tight: false },
+                    };
+                    lines.push(Line::Sem(Stmt::Eval(e)));
+                } else {
+                    lines.push(Line::Sem(gen_line(&mut r, &g, lang)));
+                }
+            }
             let text = TextSpec { crlf: vec![false; lines.len()], lines, trailing_nl: false };
-            if session && r.chance(1, 2) {
+            if use_session {
                 events.push(Event { actor: 0, op: Op::SessionText { text }, clock: ClockScript::Frozen { t } });
             } else if r.below(10) < move_rate {
                 if r.chance(1, 3) { sweep = Some((text.clone(), t, 1)); }
@@ -111,7 +140,7 @@ impl Check for C09 {
     }
 
     fn execute(&self, trace: &Trace, env: &Env) -> RunReport {
-        let mut rep = run_semantic("C09", trace, env, &SemOpts { atomicity: true, judge_admin: false, rate_probes: vec![] });
+        let mut rep = run_semantic("C09", trace, env, &SemOpts { atomicity: true, judge_admin: true, rate_probes: vec![] });
         for e in trace.events.iter() {
             let t = e.clock.base();
             let day = 86400 * crate::clock::NS;
